@@ -23,7 +23,7 @@ ASSUMPTIONS = [
     'degenerate case compared with rtol 1e-9, plus the licensed e^-10 relative slack for emission (the cross-section path clamps saturated transmittances, the k path does not)',
     'general case: Jensen bound judged on transmission models; the cross-section run uses the weight-averaged coefficient table (interpolation is linear in the coefficients in linear mode)',
 ]
-REQUIRED = {'requadrature': 0.08, 'grids:same-ends-other-spacing': 0.15, 'family:transmission': 0.2, 'family:emission': 0.2, 'degenerate': 0.3, 'general': 0.2, 'profile:noniso': 0.3}
+REQUIRED = {'zero-weight-point': 0.15, 'requadrature': 0.08, 'grids:same-ends-other-spacing': 0.15, 'family:transmission': 0.2, 'family:emission': 0.2, 'degenerate': 0.3, 'general': 0.2, 'profile:noniso': 0.3}
 
 
 @st.composite
@@ -44,7 +44,7 @@ def _case(draw):
     return {'world': w, 'family': family, 'degenerate': degenerate, 'weights': wts, 'logfac': fac,
             'ngauss': ngauss, 'new_path': draw(st.booleans()),
             # second molecule tabulated on a grid with the same end points and number of points but other interior spacing
-            'warp': warp,
+            'warp': warp, 'zero_weight': draw(st.sampled_from([None, 0, None, 1, 5])),
             # history: the k-tables are re-loaded with another number of quadrature points under the live model
             'requad': draw(st.sampled_from([True, False, False]))}
 
@@ -97,6 +97,10 @@ def check(case):
     family = case['family']
     out.cls('family:' + family)
     wts = np.array(case['weights'], dtype=float)
+    if case.get('zero_weight') is not None and len(wts) >= 2:
+        # a quadrature point of weight exactly zero (anywhere but last) is a legal set of weights summing to one
+        wts[case['zero_weight'] % (len(wts) - 1)] = 0.0
+        out.cls('zero-weight-point')
     wts = wts / wts.sum()
     fac = 10.0 ** np.array(case['logfac'], dtype=float) if not case['degenerate'] else np.ones(len(wts))
     out.cls('degenerate' if case['degenerate'] else 'general')
